@@ -8,8 +8,12 @@ import DclabModel.DriveUtil
                                             `innate` is sorted here like Python's `sorted`)
     col <feat> v,v,…                        column of the last measurement (integers / p/q)
     log <name> tok,tok,…                    a log of the last measurement
-    join <tag> <tag> …                      → order … ; offsets … ; feats … ; col f=… ; log n=…
+    table <name> tok,tok,…                  a table of the last measurement (row tokens)
+    cfg k=v,k=v,…                           the remaining metadata of the last measurement (tokens)
+    join <tag> <tag> …                      → order … ; offsets … ; feats … ; col f=… ; log n=… ;
+                                              table n=… ; cfg k=v,… ; day d ; sec q ; run r ; count n
     split <N> <s> <z0> <zN>                 → parts 0,1|2,3|4
+    splitrun <N> <s> <z0> <zN>              → ok 0,1|2,3|4   /  error <temporaries left>
     rt <tag> <N> <s>                        join (split x s) through the model → as `join`
     oldprune a,b,c | b,c                    the unrepaired pruning loop (F10) → a,b
     oldorder <date> <time> <run> <date> <time> <run>   unrepaired key: `le` / `gt`
@@ -51,7 +55,11 @@ def showJoined (j : Joined) : String :=
     ["order " ++ showNats j.order, "offsets " ++ showRats j.offsets,
      "feats " ++ joinWith "," (j.feats.map featName)] ++
     j.feats.map (fun f => "col " ++ featName f ++ "=" ++ showRats (j.col f)) ++
-    j.logs.map (fun nl => "log " ++ nl.1 ++ "=" ++ joinWith "," nl.2))
+    j.logs.map (fun nl => "log " ++ nl.1 ++ "=" ++ joinWith "," nl.2) ++
+    j.tables.map (fun nl => "table " ++ nl.1 ++ "=" ++ joinWith "," nl.2) ++
+    ["cfg " ++ joinWith "," (j.cfg.map (fun kv => kv.1 ++ "=" ++ kv.2)),
+     "day " ++ toString j.day, "sec " ++ showRat j.sec, "run " ++ toString j.run,
+     "count " ++ toString j.count])
 
 def modLast (d : D) (f : Meas × List (Feat × List Rat) → Meas × List (Feat × List Rat)) :
     D × String :=
@@ -80,6 +88,21 @@ def handle (d : D) (line : String) : D × String :=
     | some vals => modLast d fun e => (e.1, (featOf f, vals) :: e.2)
     | none => (d, "bad-op")
   | ["log", name, toks] => modLast d fun e => ({ e.1 with logs := e.1.logs ++ [(name, csv toks)] }, e.2)
+  | ["table", name, toks] =>
+    modLast d fun e => ({ e.1 with tables := e.1.tables ++ [(name, csv toks)] }, e.2)
+  | ["cfg", kvs] =>
+    modLast d fun e => ({ e.1 with cfg := (csv kvs).map (fun kv =>
+      match kv.splitOn "=" with
+      | [k, v] => (k, v)
+      | _ => (kv, "")) }, e.2)
+  | ["splitrun", n, s, z0, zN] =>
+    match n.toNat?, s.toNat? with
+    | some n, some s =>
+      if s = 0 then (d, "err:value") else
+      match splitRun n s (z0 == "1") (zN == "1") with
+      | .ok parts => (d, "ok " ++ joinWith "|" (parts.map showNats))
+      | .error t => (d, "error " ++ toString t)
+    | _, _ => (d, "bad-op")
   | "join" :: tags =>
     match tags.mapM (fun t => t.toNat?.bind (findTag d)) with
     | some ms =>
